@@ -109,12 +109,13 @@ def map_call_to_procedure_body(call, caller, callee=None):
 
         for (index, dim), lbdiff in zip(enumerate(var.dimensions), lbounds_diff):
             # if the argument contains an array range, we must map the bounds accordingly
-            if isinstance(val.dimensions[index], sym.Range) and (lower := val.dimensions[index].lower):
+            if isinstance(val.dimensions[index], sym.Range) and (lower := val.dimensions[index].lower) is not None:
                 lower = simplify(sym.Sum((lower, lbdiff)))
                 decl_lbound = decl_lbounds[index][0]
                 if isinstance(dim, sym.Range):
-                    _lower = dim.lower or decl_lbounds[index][1]
-                    _upper = dim.upper or var_ubounds[index]
+                    # explicit bounds may be a (falsy) literal zero
+                    _lower = dim.lower if dim.lower is not None else decl_lbounds[index][1]
+                    _upper = dim.upper if dim.upper is not None else var_ubounds[index]
 
                     _lower = _offset_lbound(lower, decl_lbound, _lower)
                     _upper = _offset_lbound(lower, decl_lbound, _upper)
